@@ -87,7 +87,16 @@ impl Rng {
     /// 0, 1, boundary, byte-distinct marker, random.
     pub fn scalar(&mut self, bits: u32, marker_index: u64) -> u64 {
         let mask = if bits >= 64 { u64::MAX } else { (1u64 << bits) - 1 };
-        match self.below(10) {
+        // values that mean something in this domain: magics, classic
+        // addresses and geometries, page/segment sizes, 32/64-bit boundaries —
+        // the constants a maintainer would special-case
+        const DICT: [u64; 30] = [
+            0xB8000, 0xA0000, 0x100000, 0x1000, 0x7C00, 0xE852_50D6, 0x36D7_6289, 0x1BAD_B002, 0x2BAD_B002,
+            640, 480, 800, 600, 1024, 768, 80, 25, 32, 24, 16, 15, 8, 4, 0xFFFF, 0x1_0000, 0xFFFF_FFFE,
+            0x1_0000_0000, 0xFFFF_FFFF_FFFF_F000, 0x8000_0000, 0x7FFF_FFFF,
+        ];
+        match self.below(11) {
+            10 => *self.pick(&DICT) & mask,
             0 => 0,
             1 => 1,
             2 => mask,
